@@ -337,7 +337,8 @@ def oracle(ctx):
         part = _evaluate_projects(ctx, plan, "p%d" % done, t0 * 0.25 if done else 10)
         for rec in part:
             check_project(ctx, rec)
-        recs.extend(part)
+        if len(recs) < 100:      # kept for the correspondence
+            recs.extend(part)
         done += len(plan)
     ctx.notes["projects"] = done
     _CACHE["recs"] = recs
